@@ -225,7 +225,9 @@ def check_map_moves(chk, F):
 
 CHAIN_FILES = ('Chain_matrix.h', 'chain_vine_swap.h', 'chain_pairing.h', 'chain_rep_cycles.h',
                'chain_column_extra_properties.h')
-CHAIN_CONTAINERS = {'pivotToColumnIndex_': ('ID', 'MAT'), 'pivotToPosition_': ('ID', 'POS'), 'matrix_': ('MAT', None)}
+CHAIN_CONTAINERS = {'pivotToColumnIndex_': ('ID', 'MAT'), 'pivotToPosition_': ('ID', 'POS'), 'matrix_': ('MAT', None),
+                    'positionToIndex_': ('POS', 'MAT')}
+OVERLAY_FILES = ('Position_to_index_overlay.h',)      # position indexing on top of the chain matrix
 
 
 def check_index_kinds(chk, F):
@@ -242,7 +244,19 @@ def check_index_kinds(chk, F):
         c0 = kc.checked
         kc.run(f)
         per_fn[id(f)] = (f, list(zip(kc.reports[before:], kc.report_sigs[before:])), kc.checked - c0)
-    chk.count('index-kind meetings checked', kc.checked)
+    # the position overlay on top of the chain matrix: its own functions, read against the chain signatures it calls
+    # (an own instance: the overlay re-declares the public interface with other index kinds)
+    ov = [f for f in F.functions if f['inst'] in (0, 2) and f['file'].split('/')[-1] in OVERLAY_FILES and
+          f.get('body') is not None]
+    if len(ov) < 20:
+        raise AnalysisBroken('C06: position overlay not found (%d functions)' % len(ov))
+    chain_only = [f for f in fns if f.get('clsname') == 'Chain_matrix']
+    kc2 = kinds.KindChecker(chain_only, CHAIN_CONTAINERS)
+    for f in ov:
+        before, c0 = len(kc2.reports), kc2.checked
+        kc2.run(f)
+        per_fn[id(f)] = (f, list(zip(kc2.reports[before:], kc2.report_sigs[before:])), kc2.checked - c0)
+    chk.count('index-kind meetings checked', kc.checked + kc2.checked)
     ok = TABLE['kind_conflations_ok']
     for f, reps, n in per_fn.values():
         if n == 0 and not reps:
@@ -261,6 +275,187 @@ def check_index_kinds(chk, F):
                '; '.join('line %s: %s' % (nd.get('l'), m) for nd, m, _ in real[:3]),
                key='E11|%s::%s|%s' % (owner, f['name'], real[0][2] if real else ''))
     chk.expect_count('E11-index-kinds', 'kind meetings', kc.checked, 150)
+
+
+def check_last_cell(chk, F):
+    """E11-last-cell: "removals of the last cell": a transposition exchanges positions, not identifiers, so where vine
+    updates are on and the class stores the positions (pivotToPosition_, with the stored barcode) the last cell is
+    the one of highest position. A maximum search over the *identifiers* of the pivot dictionary (`p.first > best`) that
+    selects the column to remove is accepted only in an arm compiled without vine updates or without stored positions
+    (there the caller provides the order and the documentation asks for increasing identifiers)."""
+    fs = [f for f in F.functions if f.get('clsname') == 'Chain_matrix' and f['name'] == 'remove_last' and
+          f.get('inst') in (0, 2) and f.get('body') is not None]
+    if len(fs) != 1:
+        raise AnalysisBroken('C06: Chain_matrix::remove_last not found')
+    f = fs[0]
+    par = ir.parents(f['body'])
+    n = 0
+    for lp in ir.walk(f['body']):
+        if lp.get('k') != 'CXXForRangeStmt':
+            continue
+        rng = ir.show(lp.get('range'))
+        var = (lp.get('var') or {}).get('n')
+        cmpk = [x for x in ir.walk(lp.get('body')) if x.get('k') in ('BinaryOperator', 'CXXOperatorCallExpr') and
+                x.get('op') in ('>', '<', '>=', '<=') and ('%s.first' % var) in ir.show(x).replace(' ', '')]
+        cmpv = [x for x in ir.walk(lp.get('body')) if x.get('k') in ('BinaryOperator', 'CXXOperatorCallExpr') and
+                x.get('op') in ('>', '<', '>=', '<=') and ('%s.second' % var) in ir.show(x).replace(' ', '')]
+        if not cmpk and not cmpv:
+            continue
+        n += 1
+        by_identifier = bool(cmpk) and 'pivotToPosition_' not in rng
+        ok = True
+        if by_identifier:
+            # constexpr arms in force, evaluated on the four values of (vine updates, stored positions)
+            decisions = []
+            cur = lp
+            while id(cur) in par:
+                up = par[id(cur)]
+                if up.get('k') == 'IfStmt' and up.get('constexpr'):
+                    if cur is up.get('then'):
+                        decisions.append((up.get('cond'), True))
+                    elif cur is up.get('else'):
+                        decisions.append((up.get('cond'), False))
+                cur = up
+
+            def evc(c, vine, pairs):
+                c = ir.skipcasts(c)
+                k = c.get('k')
+                if k == 'ParenExpr':
+                    return evc(c['c'][0], vine, pairs)
+                if k == 'UnaryOperator' and c.get('op') == '!':
+                    r = evc(c['c'][0], vine, pairs)
+                    return None if r is None else not r
+                if k == 'BinaryOperator' and c.get('op') in ('&&', '||'):
+                    a_, b_ = evc(c['c'][0], vine, pairs), evc(c['c'][1], vine, pairs)
+                    if c['op'] == '&&':
+                        return False if (a_ is False or b_ is False) else (True if (a_ and b_) else None)
+                    return True if (a_ is True or b_ is True) else (False if (a_ is False and b_ is False) else None)
+                t = ir.show(c).replace(' ', '')
+                if t.endswith('has_vine_update'):
+                    return vine
+                if t.endswith('has_column_pairings'):
+                    return pairs
+                return None
+            ok = not all(evc(c, True, True) in (None, pol) for c, pol in decisions)
+        chk.ob('E11-last-cell', 'Chain_matrix::remove_last: the search at line %s selects the last cell by %s' % (
+            lp.get('l'), 'identifier (arm without vine updates or without stored positions)' if by_identifier else
+            'position'), '%s:%s' % (rel(f['file']), lp.get('l')), ok, '' if ok else
+            'the column of highest *identifier* in `%s` is removed although vine updates are on and the positions are '
+            'stored: after a transposition of the last two cells the last cell has the smaller identifier' % rng,
+            key='E11|Chain_matrix::remove_last|last-cell')
+    chk.expect_count('E11-last-cell', 'maximum searches in Chain_matrix::remove_last', n, 1)
+
+
+def check_overlay_removals(chk, F):
+    """Identifier indexing: the overlay keeps identifier -> position. (a) E2-inverse-lockstep: a loop that exchanges
+    two entries of a dictionary, looking them up through a local inverse table (`swap(M.at(L[a]), M.at(L[b]))`), also
+    exchanges `L[a]` and `L[b]` in the same iteration - otherwise the table is stale from the second iteration on.
+    (b) E8-targeted-removal: the entry `remove_last` forgets is the one the guards (loop exits and ifs, not
+    assertions) establish to hold the position given back: abstract states (slot == position given back, slot is
+    null) enumerated, for the map arm (iterator) and the vector arm (slot) alike."""
+    fns = [f for f in F.functions if f.get('clsname') == 'Id_to_index_overlay' and f.get('inst') in (0, 2) and
+           f.get('body') is not None]
+    if not fns:
+        raise AnalysisBroken('C06: Id_to_index_overlay not found')
+    n_sw = 0
+    for f in fns:
+        locals_ = {x['n'] for x in ir.walk(f['body']) if x.get('k') == 'VarDecl' and 'vector' in (x.get('t') or '')}
+        for lp in ir.walk(f['body']):
+            if lp.get('k') not in ('ForStmt', 'WhileStmt'):
+                continue
+            swaps = [x for x in ir.walk(lp.get('body')) if ir.is_call(x) and ir.call_name(x) == 'swap' and
+                     len(ir.call_args(x)) == 2]
+            for sw in swaps:
+                a0, a1 = [ir.show(y).replace(' ', '') for y in ir.call_args(sw)]
+                for L in locals_:
+                    ma = re.search(r'%s\[([^\]]+)\]' % re.escape(L), a0)
+                    mb = re.search(r'%s\[([^\]]+)\]' % re.escape(L), a1)
+                    if not ma or not mb or a0 == '%s[%s]' % (L, ma.group(1)):
+                        continue
+                    n_sw += 1
+                    want = {'%s[%s]' % (L, ma.group(1)), '%s[%s]' % (L, mb.group(1))}
+                    ok = any({ir.show(y).replace(' ', '') for y in ir.call_args(s2)} == want for s2 in swaps)
+                    chk.ob('E2-inverse-lockstep', '%s::%s: the loop at line %s exchanges `%s[%s]` and `%s[%s]` when it '
+                           'exchanges the dictionary entries they designate' % (f['clsname'], f['name'], lp.get('l'),
+                           L, ma.group(1), L, mb.group(1)), '%s:%s' % (rel(f['file']), sw.get('l')), ok,
+                           '' if ok else 'the inverse table `%s` is computed before the loop and not updated: from the '
+                           'second iteration on, the entries of other identifiers are exchanged' % L,
+                           key='E2|%s::%s|inverse-lockstep' % (f['clsname'], f['name']))
+    chk.expect_count('E2-inverse-lockstep', 'exchanges through a local inverse table', n_sw, 1)
+
+    fs = [f for f in fns if f['name'] == 'remove_last']
+    if len(fs) != 1:
+        raise AnalysisBroken('C06: Id_to_index_overlay::remove_last not found')
+    f = fs[0]
+    par_map = ir.parents(f['body'])
+    n_rm = 0
+    for x in ir.walk(f['body']):
+        slot = None
+        if ir.is_call(x) and ir.call_name(x) == 'erase' and ir.call_args(x):
+            a = ir.skipcasts(ir.call_args(x)[0])
+            if a is not None and a.get('k') == 'DeclRefExpr':
+                slot = a['n'] + '->second'
+        t = ir.write_target(x)
+        if t is not None and x.get('op') == '=' and 'get_null_value' in ir.show(x['c'][1]):
+            tt = ir.show(t).replace(' ', '')
+            if tt.startswith('_id_to_index(') or 'idToIndex_' in tt:
+                slot = tt
+        if slot is None:
+            continue
+        n_rm += 1
+        guards = []
+        node = x
+        while id(node) in par_map:
+            pn = par_map[id(node)]
+            if pn.get('k') == 'IfStmt' and not pn.get('constexpr'):
+                if node is pn.get('then'):
+                    guards.append((pn.get('cond'), True))
+                elif node is pn.get('else'):
+                    guards.append((pn.get('cond'), False))
+            elif pn.get('k') == 'CompoundStmt':
+                for sib in pn.get('c') or []:
+                    if sib is node:
+                        break
+                    if sib.get('k') == 'WhileStmt' and not ir.contains(
+                            sib.get('body'), lambda y: y.get('k') in ('BreakStmt', 'ReturnStmt')):
+                        guards.append((sib.get('cond'), False))
+            node = pn
+
+        def holds(c, eq, null):
+            c = ir.skipcasts(c)
+            if c is None:
+                return None
+            k = c.get('k')
+            if k == 'ParenExpr':
+                return holds(c['c'][0], eq, null)
+            if k == 'UnaryOperator' and c.get('op') == '!':
+                r = holds(c['c'][0], eq, null)
+                return None if r is None else not r
+            if k == 'BinaryOperator' and c.get('op') in ('&&', '||'):
+                a_, b_ = holds(c['c'][0], eq, null), holds(c['c'][1], eq, null)
+                if c['op'] == '&&':
+                    return False if (a_ is False or b_ is False) else (True if a_ and b_ else None)
+                return True if (a_ is True or b_ is True) else (False if (a_ is False and b_ is False) else None)
+            if k in ('BinaryOperator', 'CXXOperatorCallExpr') and c.get('op') in ('==', '!='):
+                ab = c['c'] if k == 'BinaryOperator' else ir.call_args(c)
+                ta, tb = [ir.show(y).replace(' ', '') for y in ab]
+                for p_, q_ in ((ta, tb), (tb, ta)):
+                    if p_ == slot or p_ == '(' + slot + ')':
+                        if q_ == 'nextIndex_':
+                            return eq if c['op'] == '==' else not eq
+                        if 'get_null_value' in q_:
+                            return null if c['op'] == '==' else not null
+            return None
+        bad = None
+        for eq, null in ((True, False), (False, True), (False, False)):
+            if all(holds(c, eq, null) in (None, pol) for c, pol in guards) and not eq and bad is None:
+                bad = 'a null slot' if null else 'the slot of another cell'
+        chk.ob('E8-targeted-removal', 'Id_to_index_overlay::remove_last forgets `%s` only where the guards establish '
+               'that it holds the position given back' % slot, '%s:%s' % (rel(f['file']), x.get('l')), bad is None,
+               '' if bad is None else 'the guards before the removal also admit %s: after a vine swap the cell at the '
+               'last position is not the one with the largest identifier (an assertion does not guard a release '
+               'build)' % bad, key='E8|Id_to_index_overlay::remove_last|targeted|%s' % slot.split('(')[0].split('-')[0])
+    chk.expect_count('E8-targeted-removal', 'removals in Id_to_index_overlay::remove_last', n_rm, 2)
 
 
 def run(tier, replay=None):
@@ -282,6 +477,8 @@ def run(tier, replay=None):
     check_index_kinds(chk, F)
     c05.run_row_kinds(chk, F, only=('ru_vine_swap.h',), floor=100)
     findrule.run(chk, F, ('ru_vine_swap.h', 'chain_vine_swap.h'), {}, 'C06', 2)
+    check_overlay_removals(chk, F)
+    check_last_cell(chk, F)
     check_family(chk, F, 'Chain_vine_swap', CH, ['vine_swap', 'vine_swap_with_z_eq_1_case'], 'swap_positions',
                  kept='columnIndex2', exchanged='columnIndex1',
                  sign_vars={'col1IsNeg': (1, '-'), 'col2IsNeg': (2, '-')}, pairing_only=True)
